@@ -77,7 +77,7 @@ def run_case(ctx, n):
     CLEAR, then other subsets): the verdict on each statement must not depend on the statements executed before."""
     from beancount.core import data
     rng = ctx.rng('case', n)
-    led = ledgers.gen_ledger(rng, ntxn=rng.randint(4, ctx.pick(16, 50)))
+    led = ledgers.gen_ledger(rng, ntxn=rng.randint(4, ctx.pick(16, 50)), renamed_roots=rng.random() < 0.2)
     entries, errors, options = led.loaded
     conn = engine.connection(ledger=led.loaded)
     txns = [e for e in entries if isinstance(e, data.Transaction)]
@@ -216,6 +216,29 @@ def check_clauses(ctx, rng, n, vi, led, conn, entries, options, txns, d, e, use_
     if a != b or a != exp_rows:
         ctx.violation('c13.filter_not_independent', f'{with_from}: {len(a)} rows; filter in WHERE: {len(b)} rows; harness filter over the unfiltered result: {len(exp_rows)} rows', case)
         return False
+    # 4b. a sub-select interprets its own FROM clause on its own: the outer clauses do not leak into it
+    inner_open = rng.choice([None, d, d + datetime.timedelta(days=30)])
+    inner_close = rng.choice([None, True, e])
+    inner_clear = rng.random() < 0.3
+    if inner_open is None and inner_close is None and not inner_clear:
+        inner_close = True
+    if isinstance(inner_close, datetime.date) and inner_open and inner_close < inner_open:
+        inner_close = None
+        inner_clear = True
+    inner_clauses = clause_text(inner_open, inner_close, inner_clear, rng.choice([None, 'year >= 2019']))
+    nested = f'SELECT id, account, position FROM {clauses} WHERE account IN (SELECT account FROM {inner_clauses})'
+    try:
+        inner_accounts = {r[0] for r in conn.execute(f'SELECT account FROM {inner_clauses}').fetchall()}
+        got = conn.execute(nested).fetchall()
+    except Exception as exc:  # noqa: BLE001
+        ctx.violation('c13.subselect_rejected', f'{nested}: {exc!r}', case)
+        return False
+    exp_nested = [(r[1], r[2], r[3]) for r in rows if r[2] in inner_accounts] if inner_accounts else []
+    ctx.count('obs.subselect_clause_relations')
+    if got != exp_nested:
+        ctx.violation('c13.subselect_clauses_not_independent', f'{nested}: {len(got)} rows; filtering the outer result by the accounts of the stand-alone '
+                      f'sub-select gives {len(exp_nested)} rows', case)
+        return False
     # 5. BALANCES and PRINT see the same entries
     try:
         bal = conn.execute(f'BALANCES FROM {clauses}').fetchall()
@@ -291,7 +314,7 @@ def finalize(merged):
         reasons.append(f'only {len(subsets)} of the clause subsets observed: {sorted(subsets)}')
     for k in ('obs.original_transactions_cut', 'obs.original_transactions_kept', 'obs.balance_sheet_accounts_compared',
               'obs.income_statement_accounts_compared', 'obs.filter_relations', 'obs.print_route', 'obs.balances_route',
-              'obs.close_before_open_rejected', 'obs.digest_comparisons', 'obs.statements_on_shared_connection'):
+              'obs.close_before_open_rejected', 'obs.digest_comparisons', 'obs.statements_on_shared_connection', 'obs.subselect_clause_relations'):
         if c.get(k, 0) == 0:
             reasons.append(f'{k} == 0')
     return reasons
